@@ -49,7 +49,7 @@ func ExtractInstanceTags(m []byte) (ours, theirs uint32, ok bool) {
 			return 0, 0, false
 		}
 
-		_, senderInstanceTag, _ := ExtractWord(msg[messageHeaderPrefix:])
+		msg, senderInstanceTag, _ := ExtractWord(msg[messageHeaderPrefix:])
 		_, receiverInstanceTag, _ := ExtractWord(msg)
 
 		return receiverInstanceTag, senderInstanceTag, true
